@@ -26,7 +26,7 @@ ID = "C17"
 LEVEL = "model_checking"
 ENGINE = "E2 parse-history enumeration in forked pristine images + E4 preemption-bounded thread schedules"
 RULE = (
-    "E2: every sequence of <= D parses over a 18-text corpus, each sequence in a process forked from a pristine parent, every "
+    "E2: every sequence of <= D parses over a 23-text corpus, each sequence in a process forked from a pristine parent, every "
     "parse compared with the fresh-interpreter baseline of its text. E4: ordered pairs of corpus texts x {pristine, warm process image} "
     "x both start orders x EVERY switch point (preemption bound 1; thorough adds opcode granularity and bound 2 at call "
     "granularity); distinct = distinct history or distinct (pair, configuration, schedule); non-trivial = history of >= 2 parses "
@@ -70,6 +70,13 @@ CORPUS = {
     # whatever it is, it must stay inside THIS parse): exercises the early exits of the per-note helpers
     "open-mixed": (mk(res=12, sync=SYNC, events=EV, tracks={"ExpertSingle": T_S + ["20 = N 4 7", "20 = N 7 0"]}), None),
     "flag-only": (mk(res=12, sync=SYNC, events=EV, tracks={"ExpertSingle": T_S + ["20 = N 3 5", "24 = N 6 9", "24 = N 5 2"]}), None),
+    # one text per KIND of failure (each leaves the parse at another point; the text after it - also the same text
+    # again - must behave as in a fresh interpreter)
+    "fail-zero-tempo": (mk(res=12, sync=["0 = TS 4", "0 = B 0"], events=EV, tracks={"ExpertSingle": T_S}), None),
+    "fail-zero-tempo-late": (mk(res=12, sync=["0 = TS 4", "0 = B 120000", "6 = B 0"], events=EV, tracks={"ExpertSingle": T_S}), None),
+    "fail-res-0": (mk(res=0, sync=SYNC, events=EV, tracks={"ExpertSingle": T_S}), None),
+    "fail-no-ts": (mk(res=12, sync=["0 = B 120000"], events=EV, tracks={"ExpertSingle": T_S}), None),
+    "fail-no-events-section": (mk(res=12, sync=SYNC, events=EV, tracks={"ExpertSingle": T_S}).replace("[Events]", "[Eventz]"), None),
     # fails inside the note loop of its SECOND track after two notes were built (unsorted over a tempo change)
     "fail-mid-track": (mk(res=100, sync=SYNC, events=EV, tracks=[("ExpertSingle", T_A), ("HardSingle", ["0 = N 0 0", "8 = N 1 0", "4 = N 2 0"])]), None),
 }
